@@ -1,8 +1,8 @@
 import ScrutModel.Model.StateFile
 namespace Scrut.StateFile
 
-theorem source_funcs (e : Bool) (fs0 : List Fn) (vs0 : List (Nat × Nat)) (fs : List Fn) (rest : List Line) :
-    source ⟨true, fs0, vs0⟩ (fs.map .defFn ++ rest) = source ⟨true, fs0 ++ fs, vs0⟩ rest := by
+theorem source_funcs (d t : Bool) (fs0 : List Fn) (vs0 : List (Nat × Nat)) (fs : List Fn) (rest : List Line) :
+    source ⟨true, d, t, fs0, vs0⟩ (fs.map .defFn ++ rest) = source ⟨true, d, t, fs0 ++ fs, vs0⟩ rest := by
   induction fs generalizing fs0 with
   | nil => simp
   | cons f r ih =>
@@ -11,8 +11,8 @@ theorem source_funcs (e : Bool) (fs0 : List Fn) (vs0 : List (Nat × Nat)) (fs : 
     rw [ih (fs0 ++ [f])]
     simp
 
-theorem source_vars (e : Bool) (fs0 : List Fn) (vs0 vs : List (Nat × Nat)) :
-    source ⟨e, fs0, vs0⟩ (vs.map (fun kv => Line.setVar kv.1 kv.2)) = ⟨e, fs0, vs0 ++ vs⟩ := by
+theorem source_vars (e d t : Bool) (fs0 : List Fn) (vs0 vs : List (Nat × Nat)) :
+    source ⟨e, d, t, fs0, vs0⟩ (vs.map (fun kv => Line.setVar kv.1 kv.2)) = ⟨e, d, t, fs0, vs0 ++ vs⟩ := by
   induction vs generalizing vs0 with
   | nil => simp [source]
   | cons v r ih =>
@@ -20,13 +20,43 @@ theorem source_vars (e : Bool) (fs0 : List Fn) (vs0 vs : List (Nat × Nat)) :
     rw [ih (vs0 ++ [v])]
     simp
 
-/-- **everything is restored, whatever the option is when the state is written** -/
+/-- **everything is restored, whatever the options are when the state is written** -/
 theorem source_persist (s : St) : source fresh (persist s) = s := by
-  obtain ⟨e, fs, vs⟩ := s
+  obtain ⟨e, d, t, fs, vs⟩ := s
   simp only [persist, fresh, List.cons_append, List.nil_append, source, List.append_assoc]
-  rw [source_funcs true [] [] fs]
+  rw [source_funcs d t [] [] fs]
   simp only [List.nil_append, List.cons_append, source]
-  rw [source_vars e fs [] vs]
+  rw [source_vars e d t fs [] vs]
   simp
+
+/-- without `errexit` every command of the sub-shell runs -/
+theorem runCmds_all (cs : List Cmd) : (runCmds false cs).1 = (cs.map (·.out)).flatten := by
+  induction cs with
+  | nil => simp [runCmds]
+  | cons c r ih => simp [runCmds, ih]
+
+/-- when every command returns 0 the option does not matter -/
+theorem runCmds_ok (e : Bool) (cs : List Cmd) (h : ∀ c ∈ cs, c.status = 0) :
+    runCmds e cs = ((cs.map (·.out)).flatten, 0) := by
+  induction cs with
+  | nil => simp [runCmds]
+  | cons c r ih =>
+    have hc : c.status = 0 := h c (by simp)
+    have hr := ih (fun c hc => h c (by simp [hc]))
+    simp [runCmds, hc, hr]
+
+theorem hookCmds_guarded_ok (s : St) : ∀ c ∈ hookCmds true s, c.status = 0 := by
+  intro c hc
+  simp [hookCmds] at hc
+  rcases hc with rfl | rfl | rfl | rfl | rfl | rfl <;> rfl
+
+theorem hookCmds_out (g : Bool) (s : St) : ((hookCmds g s).map (·.out)).flatten = persist s := by
+  simp [hookCmds, persist]
+
+/-- **the hook as it is now gets through under every option**: the complete state file is written and the test
+case ends with the status of its command -/
+theorem writeState_now (h : Hook) (s : St) (code : Nat) :
+    writeState true true h s code = (some (persist s), code) := by
+  simp [writeState, runCmds_ok h.errexit _ (hookCmds_guarded_ok s), hookCmds_out]
 
 end Scrut.StateFile
